@@ -308,6 +308,10 @@ func runC18(c *Ctx, variant int) {
 			if st := d.ws.State(); st != websocket.StateTerminated {
 				c.Failf("state-after-failure", "State()=%s after a failed handshake, want terminated", st)
 			}
+			// not half-open: the client's end of the connection is closed, whatever made the handshake fail
+			if srv != nil && !srv.end.Peer().ClosedLocal() {
+				c.Failf("failed-handshake-left-connection-open", "the handshake failed (%v; status=%d close-after=%d abort=%v) and the client's end of the TCP connection is still open: the server never sees the client go away", err, resp.Status, resp.CloseAfter, resp.Abort)
+			}
 			// every read and write API refuses, and nothing reaches the wire
 			before := 0
 			if srv != nil {
